@@ -8,7 +8,7 @@
     the code after the fix commit "coinswap routed swaps return the intermediate standard coin
     to the sender" (before it, leg 1 of a routed swap paid the recipient: corpus/C02). *)
 From Irismod Require Import Coinswap.Model Coinswap.Check Coinswap.ProofsArith Coinswap.ProofsSpec
-  Coinswap.Proofs Coinswap.ProofsValue Coinswap.ProofsSound Coinswap.ProofsLpt.
+  Coinswap.Proofs Coinswap.ProofsValue Coinswap.ProofsSound Coinswap.ProofsLpt Coinswap.ProofsConserve.
 
 Local Open Scope Z_scope.
 
@@ -192,6 +192,22 @@ Theorem history_supply_frame :
 Proof. exact history_supply_frame_lemma. Qed.
 Print Assumptions history_supply_frame.
 
+(** ** the balance sheet of a whole history
+
+    [total A l d] = what the accounts of [A] hold together in denom [d].  For every duplicate-free
+    set [A] containing the parties (signers, recipients) of all messages, the fee collector and the
+    escrow address of every pool that exists at the end, and every denom: total minus supply is the
+    same after the history as before — all messages together moved coins only among those accounts
+    and minted / burned exactly what the supplies record. *)
+Theorem history_balance_sheet :
+  forall (ms : list msg) (A : list Z) (s : state),
+    Inv s -> NoDup A ->
+    (forall m, In m ms -> incl (parties m) A) -> In acct_feecol A ->
+    (forall n, 1 <= n <= seq (run s ms) -> In (pool_acct n) A) ->
+    forall d, total A (led (run s ms)) d - supply (run s ms) d = total A (led s) d - supply s d.
+Proof. exact history_conserves_lemma. Qed.
+Print Assumptions history_balance_sheet.
+
 (** ** failure *)
 
 (** A message that is rejected or aborts leaves the whole state (ledger, supplies, registry,
@@ -268,4 +284,22 @@ Proof.
   split; [repeat constructor; unfold acct_feecol, acct_module; lia|].
   split; [simpl; unfold std; lia|].
   vm_compute. reflexivity.
+Qed.
+
+(** the hypotheses of [history_balance_sheet] on that history: users 0, 1, 3, the fee collector and
+    the three pool addresses up to the final sequence *)
+Example c02_balance_sheet_hypotheses :
+  let A := [0; 1; 3; acct_feecol; pool_acct 1; pool_acct 2; pool_acct 3] in
+  let ms := ex2_setup ++ [ex2_sell] in
+  NoDup A /\ (forall m, In m ms -> incl (parties m) A) /\ In acct_feecol A
+  /\ seq (run ex2_s0 ms) = 3
+  /\ total A (led (run ex2_s0 ms)) 0 - supply (run ex2_s0 ms) 0 = total A (led ex2_s0) 0 - supply ex2_s0 0.
+Proof.
+  cbv zeta. split; [|split; [|split; [|split]]].
+  - unfold acct_feecol, pool_acct. repeat constructor; simpl; intuition discriminate.
+  - intros m Hin. simpl in Hin.
+    destruct Hin as [<-|[<-|[<-|[]]]]; intros a Ha; simpl in Ha; simpl; intuition.
+  - simpl. tauto.
+  - vm_compute. reflexivity.
+  - vm_compute. reflexivity.
 Qed.
